@@ -17,7 +17,7 @@ operation without specified side effects must leave everything observable (index
 from vf import core, sut, wsgi
 from vf import refrouter as rr
 from vf.refrouter import L, W
-from vf.hist import Search
+from vf.hist import Search, Built
 from vf.canon import Canon
 
 ID = 'C11'
@@ -517,7 +517,14 @@ def work(spec):
             core.add_violation(res, {'kind': 'transition', 'hist': [list(o) for o in hist + (op,)], 'extra': a if kind == 'extra' else None},
                                f'after {list(hist)!r} the operation {op!r} raised {out}', sig='spurious-reject:' + out)
 
-    s = Search(lambda h: build(om, h), m, lambda obj: _canon(obj[0].router))
+    def build_k(h):
+        b = Built(build(om, h))
+        model, _ = model_of(h, b[2], rules, hooks)
+        b.mkey = (tuple(sorted((p, r['rule'], tuple(sorted(r['methods'].items()))) for p, r in model.routes.items())),
+                  tuple(sorted(model.names.items())), tuple(sorted((p, h[0]) for p, h in model.hooks.items())), tuple(sorted(model.unspec)))
+        return b
+    # histories are merged only when the concrete router AND the survivor model agree
+    s = Search(build_k, m, lambda obj: (_canon(obj[0].router), obj.mkey))
     s.run(depth, on_state, on_transition, first_ops=first)
     res['states'] = s.states
     res['transitions'] = s.transitions
